@@ -243,8 +243,8 @@ type c12Scenario struct {
 	Ops []trOp `json:"ops"`
 }
 
-var c12Nicks = []string{"me", "a", "b", "c", "A", "d", ""}
-var c12Chans = []string{"#x", "#y", "#X", "&z", ""}
+var c12Nicks = []string{"me", "a", "b", "c", "A", "d", "", "ab"} // ("#x"+"ab" and "#xa"+"b" read the same when glued together)
+var c12Chans = []string{"#x", "#y", "#X", "&z", "", "#xa"}
 
 func genModeString(t *rapid.T, m *model.Tracker, ch string) (string, []string) {
 	var modes strings.Builder
@@ -730,4 +730,137 @@ func envStr(name, def string) string {
 		return v
 	}
 	return def
+}
+
+// ---------------------------------------------------------------------------
+// large-state leg: thousands of nicks, then mass removal
+// ---------------------------------------------------------------------------
+
+type c12Large struct {
+	Nicks     int   `json:"nicks"`
+	Chans     int   `json:"chans"`
+	MeOn      []int `json:"me_on"`      // channels the client is on
+	Loose     int   `json:"loose"`      // nicks created but on no channel
+	Removals  []int `json:"removals"`   // channels removed in this order: even index DelChannel, odd index Dissociate(me) (when on it)
+	DelEvery  int   `json:"del_every"`  // additionally every k-th nick is deleted (0: none)
+}
+
+func runC12Large(sc *c12Large) *Violation {
+	st := state.NewTracker("me")
+	m := model.NewTracker("me")
+	var nicks, chans []string
+	step := 0
+	do := func(o trOp) *Violation {
+		step++
+		var real trResult
+		var pan interface{}
+		func() {
+			defer func() { pan = recover() }()
+			real = applyReal(st, o)
+		}()
+		if pan != nil {
+			return violationf("C12", "large state, step %d %s panicked: %v", step, o, pan)
+		}
+		want := applyModel(m, o)
+		if d := sameResult(o, real, want, m); d != "" {
+			return violationf("C12", "large state (%d nicks, %d channels), step %d: %s", sc.Nicks, sc.Chans, step, d)
+		}
+		return nil
+	}
+	for c := 0; c < sc.Chans; c++ {
+		chans = append(chans, fmt.Sprintf("#c%02d", c))
+		if v := do(trOp{Op: "NewChannel", A: chans[c]}); v != nil {
+			return v
+		}
+	}
+	for _, c := range sc.MeOn {
+		if v := do(trOp{Op: "Associate", A: chans[c%sc.Chans], B: "me"}); v != nil {
+			return v
+		}
+	}
+	for i := 0; i < sc.Nicks; i++ {
+		n := fmt.Sprintf("n%04d", i)
+		nicks = append(nicks, n)
+		if v := do(trOp{Op: "NewNick", A: n}); v != nil {
+			return v
+		}
+		if i < sc.Loose {
+			continue // on no channel
+		}
+		for k := 0; k <= i%2; k++ {
+			if v := do(trOp{Op: "Associate", A: chans[(i+k*7)%sc.Chans], B: n}); v != nil {
+				return v
+			}
+		}
+	}
+	probe := func(where string) *Violation {
+		if d := probeTracker(st, m, append([]string{"me"}, nicks...), chans); d != "" {
+			return violationf("C12", "large state (%d nicks, %d channels) %s: %s", sc.Nicks, sc.Chans, where, d)
+		}
+		return nil
+	}
+	if v := probe("after the build-up"); v != nil {
+		return v
+	}
+	for k, c := range sc.Removals {
+		o := trOp{Op: "DelChannel", A: chans[c%sc.Chans]}
+		if k%2 == 1 {
+			o = trOp{Op: "Dissociate", A: chans[c%sc.Chans], B: "me"}
+		}
+		if v := do(o); v != nil {
+			return v
+		}
+	}
+	if sc.DelEvery > 0 {
+		for i := sc.Loose; i < sc.Nicks; i += sc.DelEvery {
+			if v := do(trOp{Op: "DelNick", A: nicks[i]}); v != nil {
+				return v
+			}
+		}
+	}
+	if v := probe("after the mass removal"); v != nil {
+		return v
+	}
+	// the nicks that were on no channel all along are still there and usable
+	for i := 0; i < sc.Loose && i < 3; i++ {
+		if v := do(trOp{Op: "GetNick", A: nicks[i]}); v != nil {
+			return v
+		}
+		if v := do(trOp{Op: "NewNick", A: nicks[i]}); v != nil {
+			return v
+		}
+	}
+	return probe("at the end")
+}
+
+func TestC12_Large(t *testing.T) {
+	col := evid.New("C12", "large-state leg: 300..3000 nicks on 4..40 channels (a few nicks on no channel, the client on some channels), then most channels removed (DelChannel / Dissociate of the client alternating) and every k-th nick deleted; every return value and the full observable state after build-up, after the removals and at the end must equal the model's; non-trivial always; distinct by scenario")
+	defer finish(t, col)
+	rapid.Check(t, func(t *rapid.T) {
+		sc := &c12Large{Nicks: rapid.SampledFrom([]int{300, 1000, 1030, 1500, 3000}).Draw(t, "nicks"), Chans: rapid.IntRange(4, 40).Draw(t, "chans"),
+			Loose: rapid.IntRange(0, 5).Draw(t, "loose"), DelEvery: rapid.SampledFrom([]int{0, 1, 2, 3}).Draw(t, "del_every")}
+		for k := rapid.IntRange(0, 6).Draw(t, "me_on_n"); k > 0; k-- {
+			sc.MeOn = append(sc.MeOn, rapid.IntRange(0, sc.Chans-1).Draw(t, "me_on"))
+		}
+		for k := rapid.IntRange(1, sc.Chans).Draw(t, "removals_n"); k > 0; k-- {
+			sc.Removals = append(sc.Removals, rapid.IntRange(0, sc.Chans-1).Draw(t, "removal"))
+		}
+		v := runC12Large(sc)
+		b, _ := json.Marshal(sc)
+		col.Case(string(b), true, fmt.Sprintf("nicks>=1024=%v", sc.Nicks >= 1024))
+		if len(b) < 300 {
+			col.Sample(sc)
+		}
+		if v != nil {
+			failRapid(t, "TestC12_Large", v, sc)
+		}
+	})
+}
+
+func TestC12_Large_Replay(t *testing.T) {
+	var sc c12Large
+	loadReplay(t, &sc)
+	if v := runC12Large(&sc); v != nil {
+		t.Fatalf("REPRODUCED %s", v.Msg)
+	}
 }
